@@ -125,18 +125,46 @@ def HeapTuple.isNull (t : HeapTuple) (attnum : Int) : Bool :=
 
 /-! ### page.go:ParsePage, heap.go:ReadTuples -/
 
+/-- ParsePage's per-pointer tests without the overlap guard (what one pointer yields on a page where no earlier
+reported tuple shares its storage; `pageItemG` with `claimed = []`) -/
 def pageItem (data : Bytes) (upper : Nat) (item : ItemID) : M (Option HeapTuple) := do
   if item.flags != 1 || item.length == 0 then return none
   if item.offset < upper || item.offset + item.length > 8192 then return none
   let s ← slice data item.offset (item.offset + item.length)
   parseHeapTuple s
 
+/-- page.go:overlapsAny's loop body — the storage `[offset, offset+length)` of `item` shares a byte with that of `c` -/
+def ItemID.overlaps (item c : ItemID) : Bool :=
+  decide (item.offset < c.offset + c.length) && decide (c.offset < item.offset + item.length)
+
+/-- page.go:overlapsAny -/
+def overlapsAny (claimed : List ItemID) (item : ItemID) : Bool := claimed.any item.overlaps
+
+/-- one iteration of ParsePage's loop with the tuples reported so far occupying `claimed`: `pageItem`'s tests, then
+(fix heap/02) a pointer whose storage overlaps an already reported tuple is skipped — the first claim on the bytes wins -/
+def pageItemG (data : Bytes) (upper : Nat) (claimed : List ItemID) (item : ItemID) : M (Option HeapTuple) := do
+  if item.flags != 1 || item.length == 0 then return none
+  if item.offset < upper || item.offset + item.length > 8192 then return none
+  if overlapsAny claimed item then return none
+  let s ← slice data item.offset (item.offset + item.length)
+  parseHeapTuple s
+
+/-- ParsePage's loop over the line pointers; `claimed` = pointers of the tuples appended to `entries` so far, in order -/
+def pageLoop (data : Bytes) (upper : Nat) : List ItemID → List ItemID → M (List HeapTuple)
+  | [], _ => pure []
+  | item :: rest, claimed => do
+    match ← pageItemG data upper claimed item with
+    | some t =>
+      let ts ← pageLoop data upper rest (claimed ++ [item])
+      pure (t :: ts)
+    | none => pageLoop data upper rest claimed
+
 def parsePage (data : Bytes) : M (List HeapTuple) := do
   if data.length < 8192 then return []
   let h ← parseHeader data
   if !validHeader h then return []
   let items ← parseItems data h.lower
-  collectM (pageItem data h.upper) items
+  pageLoop data h.upper items []
 
 structure TupleEntry where
   tuple : HeapTuple
